@@ -422,7 +422,8 @@ func (w *World) checkListedRemoved(ev *simrt.Event) {
 			prop := "C05"
 			w.violate(prop, "listed-table-removed", fmt.Sprintf("%s/%s/%s", ev.Kind, kind, ev.Caller),
 				fmt.Sprintf("%s of listed table %s by task %d (%s in %s)", ev.Kind, base, ev.Task, ev.Caller, kind))
-			if strings.HasPrefix(ev.Caller, "(*Stack).Close") || strings.HasPrefix(ev.Caller, "(*Stack).Clean") {
+			// issued by Close or Clean themselves or by anything they call (the operation kind decides, not the innermost function)
+			if strings.HasPrefix(ev.Caller, "(*Stack).Close") || strings.HasPrefix(ev.Caller, "(*Stack).Clean") || kind == OpClean || kind == OpClose {
 				w.violate("C16", "listed-table-removed", fmt.Sprintf("%s/%s/%s", ev.Kind, kind, ev.Caller),
 					fmt.Sprintf("%s of listed table %s by %s", ev.Kind, base, ev.Caller))
 			}
